@@ -601,6 +601,25 @@ func runC14(r *core.Run) (bool, string) {
 			}
 		}
 		r.Count("panics_recorded_inside_calls", int64(np))
+		for _, pat := range h.Pattern {
+			if pat == "shaped-names" {
+				r.Count("histories_with_shaped_names/"+h.Impl, 1)
+				cls := map[string]int64{}
+				for i := range h.Events {
+					if h.Events[i].Phase != "concurrent" {
+						continue
+					}
+					for _, n := range []string{h.Events[i].Name, h.Events[i].Name2} {
+						if c := nameClass(n); c != "" {
+							cls[c]++
+						}
+					}
+				}
+				for c, n := range cls {
+					r.Count("concurrent_calls_by_name_class/"+c, n)
+				}
+			}
+		}
 		mu.Lock()
 		nHist++
 		lin[h.Impl+"/"+h.Pool+"/"+l]++
